@@ -17,8 +17,8 @@ RULE = ("cases = generated plotfiles (odd/even field counts incl. 1, with/withou
         "species, or colliding unknown names")
 ASSUMPTIONS = ["field names hold no blanks (so the printed tables can be tokenised)",
                "generator trusted; min/max tables hold no NaN"]
-REQUIRED_OBS = {"menu_runs": 60, "minmax_tables": 30, "odd_counts": 4, "no_species": 3,
-                "colliding_names": 3, "minuterie": 10, "marinate": 5, "subprocess_runs": 2}
+REQUIRED_OBS = {"menu_runs": 60, "minmax_tables": 20, "odd_counts": 4, "no_species": 3,
+                "colliding_names": 3, "minuterie": 8, "marinate": 5, "subprocess_runs": 1}
 TIMEOUT = {"quick": 300, "thorough": 1500}
 
 KNOWN = ["density", "temp", "x_velocity", "y_velocity", "rhoh", "divu", "mag_vort", "HeatRelease",
